@@ -147,6 +147,9 @@ func isArchOrOS(t string) bool {
 // checkPartition runs the partition rule and records one obligation per
 // (symbol, assignment).
 func checkPartition(c *Check, rule, relDir string, syms []string, compilers []string) {
+	if archSubst != "" {
+		return // the partition rule enumerates every configuration by itself
+	}
 	dir := filepath.Join(repoDir, relDir)
 	defs, files, err := scanDefs(dir, syms)
 	if err != nil {
